@@ -175,7 +175,10 @@ func readerFileCase(r *Run, s avro.Schema, d *Datum, ch *Choice, g *GT) {
 				err = fmt.Errorf("PANIC: %v", p)
 			}
 		}()
-		out := reflect.New(g.RType()).Elem().Interface()
+		var out any = reflect.New(g.RType()).Elem().Interface()
+		if repetitive || len(file)%2 == 0 {
+			out = reflect.New(g.RType()).Interface() // a pointer to the caller's own struct
+		}
 		err = avro.ReadFile(bytes.NewReader(file), out, func(val unsafe.Pointer, rb *avro.ResourceBank) error {
 			v := reflect.New(g.RType()).Elem()
 			v.Set(reflect.NewAt(g.RType(), val).Elem())
